@@ -26,8 +26,8 @@ import (
 
 const (
 	childEnv       = "C20_CHILD"
-	childASLimit   = 4 << 30 // RLIMIT_AS
-	childMemAbort  = 3 << 30 // watchdog: total runtime memory
+	childASLimit   = 6 << 30 // RLIMIT_AS
+	childMemAbort  = 5 << 30 // watchdog: total runtime memory
 	childOpSeconds = 20      // one call (or one concurrent run: x3)
 )
 
@@ -125,9 +125,9 @@ func runChild(h *history, timeout time.Duration) *childRun {
 	case strings.HasPrefix(fatal, "hang") || ctx.Err() != nil:
 		cr.Death, cr.Detail = "hang", "a call did not return within the deadline ("+fatal+")"
 	case strings.HasPrefix(fatal, "memory"):
-		cr.Death, cr.Detail = "memory", "the runtime's memory passed 3 GiB ("+fatal+")"
+		cr.Death, cr.Detail = "memory", "the runtime's memory passed 5 GiB ("+fatal+")"
 	case strings.Contains(se, "out of memory") || strings.Contains(se, "cannot allocate"):
-		cr.Death, cr.Detail = "memory", "fatal error: out of memory under a 4 GiB address-space limit"
+		cr.Death, cr.Detail = "memory", "fatal error: out of memory under a 6 GiB address-space limit"
 	case strings.Contains(se, "panic:") || strings.Contains(se, "fatal error"):
 		cr.Death, cr.Detail = "panic", "unrecovered: "+firstLines(se, 3)
 	default:
